@@ -187,14 +187,30 @@ impl LspSession {
     }
 
     fn recv(&mut self, deadline: Instant) -> Result<Value, LspErr> {
-        let now = Instant::now();
-        let left = if deadline > now { deadline - now } else { Duration::from_millis(0) };
-        match self.rx.recv_timeout(left) {
-            Ok(v) => Ok(v),
-            Err(RecvTimeoutError::Timeout) => Err(LspErr::Timeout(self.stderr_tail())),
-            Err(RecvTimeoutError::Disconnected) => {
-                std::thread::sleep(Duration::from_millis(50));
-                Err(LspErr::Dead(self.stderr_tail()))
+        // wait in short slices: a handler panic leaves the process alive but silent, and its
+        // stderr says so long before the watchdog would
+        loop {
+            let now = Instant::now();
+            let left = if deadline > now { deadline - now } else { Duration::from_millis(0) };
+            let slice = left.min(Duration::from_millis(150));
+            match self.rx.recv_timeout(slice) {
+                Ok(v) => return Ok(v),
+                Err(RecvTimeoutError::Timeout) => {
+                    if self.panicked() {
+                        // give the reader a last chance to deliver what was already written
+                        if let Ok(v) = self.rx.recv_timeout(Duration::from_millis(100)) {
+                            return Ok(v);
+                        }
+                        return Err(LspErr::Dead(self.stderr_tail()));
+                    }
+                    if Instant::now() >= deadline {
+                        return Err(LspErr::Timeout(self.stderr_tail()));
+                    }
+                }
+                Err(RecvTimeoutError::Disconnected) => {
+                    std::thread::sleep(Duration::from_millis(50));
+                    return Err(LspErr::Dead(self.stderr_tail()));
+                }
             }
         }
     }
